@@ -254,6 +254,15 @@ class Generation:
                    'AttributeError': AttributeError, 'OSError': OSError}[fault.get('exc', 'RuntimeError')]
             data = pickle.dumps((None, functions._test_raise_error, (None, exc), {}), 4)
 
+        elif phase == 'raise_in_handler':
+            # the helper stays alive; the request reaches the Listener under the Script's own
+            # inference-state id (so the helper-side state is created) and the handler raises an
+            # ordinary exception, which the protocol ships back
+            from jedi.inference.compiled.subprocess import functions
+            exc = {'ValueError': ValueError, 'KeyError': KeyError, 'RuntimeError': RuntimeError,
+                   'AttributeError': AttributeError, 'OSError': OSError}[fault.get('exc', 'RuntimeError')]
+            if is_id is not None and func is not None:
+                data = pickle.dumps((is_id, functions._test_raise_error, (exc,), {}), 4)
         elif phase == 'flood_then_die':
             # the helper writes a long report to stderr (traceback, faulthandler or sanitizer
             # dump) and then dies with the request in flight
